@@ -423,6 +423,7 @@ main(void)
 			close(0);
 			(void)open("/dev/null", O_RDONLY);
 			outfd = pfd[1];
+			drv_case_limits();
 			run_case(tok, n);
 			flush_out();
 			exit(0);
